@@ -659,6 +659,13 @@ def gen_spec(rng, fmt=None, maxn=5, maxt=4, small=False):
             rng.choice([11, 26]))
         spec['nrec'] = int(rng.integers(1, 4)) if spec['newstyle'] else int(
             rng.integers(1, 3))
+    if fmt not in ('landuse', 'cloud_rain') and rng.random() < 0.06:
+        # a share of the files has steps on BOTH sides of the boundary of the
+        # two-digit-year centuries (99365 -> 00001), whatever else was drawn
+        spec['sdate'] = 1999365
+        spec['shour'] = int(rng.choice([21, 22, 23]))
+        spec['dhour'] = int(rng.choice([1, 1, 3]))
+        spec['nt'] = max(spec['nt'], 3)
     # (format-specific step counts may have changed nt) stay inside the
     # 1970-2069 two-digit-year window
     if spec['sdate'] // 1000 == 2069 and spec['sdate'] % 1000 + (
